@@ -51,7 +51,8 @@ let cp_event (e : event) : string =
   else if is_data then base ^ "." ^ (match e.ev_data with None -> "N" | Some d -> hex_of_bytes d) ^ (if e.ev_last then ".L" else "")
   else base
 let cp_result (r : cp_result) : string =
-  let status = Printf.sprintf "%s:%d:%s:%s:%d" (zi r.r_rc) (int_of_nat r.r_consumed) (zi r.r_in_status) (zi r.r_out_status) (int_of_nat r.r_ntx) in
+  let status = Printf.sprintf "%s:%d:%s:%s:%d:%d:%d:%d:%d" (zi r.r_rc) (int_of_nat r.r_consumed) (zi r.r_in_status) (zi r.r_out_status) (int_of_nat r.r_ntx)
+                 (int_of_nat r.r_ibuf) (int_of_nat r.r_ihdr) (int_of_nat r.r_obuf) (int_of_nat r.r_ohdr) in
   if r.r_has_events then "@" ^ String.concat " " (List.map cp_event r.r_events) ^ "@" ^ status else status
 let do_connp f =
   let cs = List.nth f 1 and ss = List.nth f 2 and os = List.nth f 3 in
